@@ -69,6 +69,8 @@ unsafe impl Exfiltrator for WithRawSiginfo {
     }
 
     fn store(&self, slot: &Slot, _: c_int, info: &siginfo_t) {
+        #[cfg(feature = "verif-hooks")]
+        signal_hook_registry::verif::point(signal_hook_registry::verif::site::EX_STORE, slot as *const Slot as usize, 1);
         let info = *info;
         // Condition just not to crash if someone forgot to call init.
         //
@@ -79,6 +81,8 @@ unsafe impl Exfiltrator for WithRawSiginfo {
     }
 
     fn load(&self, slot: &Slot, _: libc::c_int) -> Option<siginfo_t> {
+        #[cfg(feature = "verif-hooks")]
+        signal_hook_registry::verif::point(signal_hook_registry::verif::site::EX_LOAD, slot as *const Slot as usize, 1);
         let slot = unsafe { slot.0.load(Ordering::Acquire).as_ref() };
         // Condition just not to crash if someone forgot to call init.
         slot.and_then(|s| s.recv())
